@@ -193,28 +193,6 @@ theorem goodLensL_mem (P : K → Prop) : ∀ (cs : List (PTree K)), GoodLensL P 
     · exact hg.1
     · exact goodLensL_mem P cs hg.2 c h
 
-omit [DecidableEq K] in
-theorem tipsL_map_bump (e : Option K) (cs : List (PTree K)) : tipsL (cs.map (bumpLen e)) = tipsL cs :=
-  tipsL_map_rename (fun s => addLen s.len e) cs
-
-omit [DecidableEq K] in
-theorem tips_unrootedFixed (t : PTree K) : tips (unrootedFixed t) = tips t := by
-  cases t with
-  | node n l cs =>
-    simp only [unrootedFixed]
-    split
-    · cases hs : splitFirstInternal cs with
-      | none => rfl
-      | some v =>
-        obtain ⟨pre, x, post⟩ := v
-        obtain ⟨hcs, hxc, _⟩ := splitFirstInternal_spec cs pre x post hs
-        subst hcs
-        have hne : pre.map (bumpLen x.len) ++ x.children ++ post.map (bumpLen x.len) ≠ [] := by
-          intro h; simp at h; exact hxc h.2.1
-        rw [tips_node_ne_nil _ _ _ hne, tips_node_ne_nil _ _ _ (by simp)]
-        simp only [tipsL_append, tipsL, tipsL_map_bump, tips_of_children x hxc, List.append_assoc]
-    · rfl
-
 /-- the pruned root before renaming / re-unrooting -/
 theorem subGo_root (P : K → Prop) (hadd : ∀ x y, P x → P y → P (x + y)) (h0 : ¬ P 0) (d : K)
     (inc : List String) (kr : Bool) (n : String) (l : Option K) (cs : List (PTree K)) (hcs : cs ≠ [])
@@ -259,11 +237,11 @@ theorem subGo_root (P : K → Prop) (hadd : ∀ x y, P x → P y → P (x + y)) 
     exact ⟨htips, hgood, fun a b ha hb _ _ => by rw [sum_splitsL, sum_splitsL, hsum a b ha hb]⟩
 
 omit [AddCommMonoid K] in
-theorem getSubTree_ok [Add K] [Zero K] (t : PTree K) (inc : List String) (im kr tonly fixed : Bool) (r : PTree K)
-    (h : getSubTree t inc im kr tonly fixed = .ok r) :
+theorem getSubTree_ok [Add K] [Zero K] (t : PTree K) (inc : List String) (im kr tonly : Bool) (r : PTree K)
+    (h : getSubTree t inc im kr tonly = .ok r) :
     ∃ r0, subGo inc kr tonly t = some r0 ∧ r0.children ≠ [] ∧
       r = (if t.children.length > 2 then
-            unrootedWith fixed (PTree.node (if r0.name = "" then "" else "root") r0.len r0.children)
+            unrooted (PTree.node (if r0.name = "" then "" else "root") r0.len r0.children)
            else PTree.node (if r0.name = "" then "" else "root") r0.len r0.children) := by
   unfold getSubTree at h
   simp only at h
@@ -283,17 +261,16 @@ theorem getSubTree_ok [Add K] [Zero K] (t : PTree K) (inc : List String) (im kr 
 /-- `get_sub_tree(names, tipsonly=True)`: the result has exactly the kept tips (in the original
 order) and every distance among them is the original one. -/
 theorem getSubTree_spec (P : K → Prop) (hadd : ∀ x y, P x → P y → P (x + y)) (h0 : ¬ P 0) (d : K)
-    (t : PTree K) (inc : List String) (im kr fixed : Bool) (r : PTree K)
-    (h : getSubTree t inc im kr true fixed = .ok r)
-    (hg : GoodLensL P t.children) (hnd : (tips t).Nodup)
-    (hun : t.children.length ≤ 2 ∨ fixed = true) :
+    (t : PTree K) (inc : List String) (im kr : Bool) (r : PTree K)
+    (h : getSubTree t inc im kr true = .ok r)
+    (hg : GoodLensL P t.children) (hnd : (tips t).Nodup) :
     tips r = (tips t).filter (fun x => inc.contains x) ∧
       ∀ a b, inc.contains a = true → inc.contains b = true → a ∈ tips t → b ∈ tips t →
         distSpec d a b r = distSpec d a b t := by
   cases t with
   | node n l cs =>
-    simp only [children_node] at hg hun
-    obtain ⟨r0, h0', hr0, h⟩ := getSubTree_ok _ inc im kr true fixed r h
+    simp only [children_node] at hg
+    obtain ⟨r0, h0', hr0, h⟩ := getSubTree_ok _ inc im kr true r h
     have h := h.symm
     · · · have hcs : cs ≠ [] := by
             rintro rfl
@@ -317,18 +294,12 @@ theorem getSubTree_spec (P : K → Prop) (hadd : ∀ x y, P x → P y → P (x +
           simp only [children_node] at h
           by_cases hgt : cs.length > 2
           · simp only [hgt, if_true, reduceIte] at h
-            have hf : fixed = true := by
-              rcases hun with h1 | h1
-              · omega
-              · exact h1
-            subst hf
             subst h
-            simp only [unrootedWith, if_true]
-            refine ⟨by rw [tips_unrootedFixed, hr1t], ?_⟩
+            refine ⟨by rw [tips_unrooted, hr1t], ?_⟩
             intro a b ha hb hat hbt
             have hmem : ∀ z, inc.contains z = true → z ∈ tips (PTree.node n l cs) → z ∈ tips r1 := by
               intro z hz hzt; rw [hr1t, List.mem_filter]; exact ⟨hzt, hz⟩
-            rw [unrootedFixed_dist d r1 (by rw [hr1t]; exact hnd.filter _)
+            rw [unrooted_dist d r1 (by rw [hr1t]; exact hnd.filter _)
               (by
                 intro c hc
                 rw [← hr1] at hc
